@@ -172,7 +172,7 @@ def rename_field(name, rule):
     raise Uncovered(f"rename_all = {rule}")
 
 
-CONTAINER_OK = {"rename_all", "tag", "content", "untagged", "transparent", "default", "skip_none", "skip_none_ineffective", "serde_as_container"}
+CONTAINER_OK = {"try_from", "rename_all", "tag", "content", "untagged", "transparent", "default", "skip_none", "skip_none_ineffective", "serde_as_container"}
 FIELD_OK = {"rename", "default", "skip_serializing_if", "flatten", "as", "serialize_always"}
 VARIANT_OK = {"rename", "untagged"}
 
@@ -189,6 +189,22 @@ MANUAL = {
                                r'let string = String::deserialize\(deserializer\)\?;\s*string\.strip_prefix\("crypto_error_0x1"\)\.map_or_else\('],
                               {"k": "hex", "len": 1, "pfx": "crypto_error_0x1"},
                               "exactly the 256 strings crypto_error_0x1XX that Display prints (the hand-written Deserialize also accepts upper-case / 1-digit / '+' forms of the same numbers)"),
+    ("legacy::quic", "CryptoError"): ([r'impl Serialize for CryptoError \{.*?serializer\.serialize_str\(&format!\("crypto_error_0x1\{:02x\}", self\.0\)\)',
+                                       r'let string = String::deserialize\(deserializer\)\?;\s*string\.strip_prefix\("crypto_error_0x1"\)\.map_or_else\('],
+                                      {"k": "hex", "len": 1, "pfx": "crypto_error_0x1"}, "as quic::CryptoError"),
+    ("legacy::quic", "StreamDataLocation"): ([r'StreamDataLocation::User => serializer\.serialize_str\("user"\), StreamDataLocation::Application => serializer\.serialize_str\("application"\), StreamDataLocation::Transport => serializer\.serialize_str\("transport"\), StreamDataLocation::Network => serializer\.serialize_str\("network"\), StreamDataLocation::Other\(s\) => serializer\.serialize_str\(s\),',
+                                              r'match String::deserialize\(deserializer\)\? \{ s if s == "user" => Ok\(StreamDataLocation::User\), s if s == "application" => Ok\(StreamDataLocation::Application\), s if s == "transport" => Ok\(StreamDataLocation::Transport\), s if s == "network" => Ok\(StreamDataLocation::Network\), s => Ok\(StreamDataLocation::Other\(s\)\), \}'],
+                                             {"k": "untagged", "alts": [{"name": "", "s": {"k": "unitEnum", "names": ["user", "application", "transport", "network"]}}, {"name": "Other", "s": {"k": "str"}}]},
+                                             "four fixed strings, any other string is Other(s) (= unit variants + untagged catch-all)"),
+}
+
+# `#[serde(try_from = "U")]`: (module, type) -> (U, regexes the module source must match, guard name, Lean predicate on the JSON read)
+TRY_FROM = {
+    ("", "ReferenceTime"): ("UncheckedReferenceTime",
+        [r'impl TryFrom<UncheckedReferenceTime> for ReferenceTime \{ type Error = &\'static str; fn try_from\(value: UncheckedReferenceTime\) -> Result<Self, Self::Error> \{ if value\.clock_type == TimeClockType::Monotaonic && value\.epoch != TimeEpoch::Unknow \{ return Err\(',
+         r'Ok\(ReferenceTime \{ clock_type: value\.clock_type, epoch: value\.epoch, wall_clock_time: value\.wall_clock_time, \}\)'],
+        "reference_time",
+        '(fun j => match lookup "clock_type" (objKvs j), lookup "epoch" (objKvs j) with | some (.str "monotaonic"), some (.str "Unknow") => true | some (.str "monotaonic"), _ => false | _, _ => true)'),
 }
 
 
@@ -462,6 +478,8 @@ def generate(g):
             if bad:
                 raise Uncovered(f"container attribute {sorted(bad)}")
             rule = ca.get("rename_all")
+            if ca.get("try_from") and not (it.kind == "struct" and it.body is not None):
+                raise Uncovered("try_from on an enum / tuple struct")
             if it.kind == "struct":
                 if ca.get("tag") or ca.get("untagged") or ca.get("content"):
                     raise Uncovered("tag on struct")
@@ -481,6 +499,16 @@ def generate(g):
                     fl, dl = fields_schema(it.module, parse_named_fields(it.body), ca, rule)
                     schemas[key] = struct_schema(fl)
                     deps[key] = dl
+                    if ca.get("try_from"):
+                        tf = TRY_FROM.get(key)
+                        if not tf or tf[0] != ca["try_from"]:
+                            raise Uncovered("try_from = " + str(ca["try_from"]) + " (validation not in the table)")
+                        u = bykey.get((it.module, tf[0]))
+                        flat = " ".join(modsrc[it.module].split())
+                        if u is None or u.body is None or [(n, t) for _, n, t in parse_named_fields(u.body)] != [(n, t) for _, n, t in parse_named_fields(it.body)] \
+                           or not all(re.search(rx, flat) for rx in tf[1]):
+                            raise Uncovered("try_from: intermediate type or validation left the recognised shape")
+                        schemas[key] = {"k": "refine", "s": schemas[key], "guard": tf[2], "lean": tf[3]}
                 else:
                     raise Uncovered("unit struct")
             else:
@@ -620,6 +648,8 @@ def generate(g):
             return f"(.adjacent {lstr(s['tag'])} {lstr(s['content'])} {lalts(s['alts'])})"
         if k == "internal":
             return f"(.internal {lstr(s['tag'])} {lalts(s['alts'])})"
+        if k == "refine":
+            return f"(.refine {lean(s['s'])}\n    {s['lean']})"
         raise ValueError(k)
 
     def lfields(fl):
